@@ -44,6 +44,11 @@ pub const UNIVERSE: &[&str] = &[
     "\"/\"",
     "\"null\"",
     "\"true\"",
+    // 64 bytes in common, then different (a key that is cut, hashed or compared by a prefix)
+    "\"xxxxxxxxxxxxxxxxxxxxxxxxxxxxxxxxxxxxxxxxxxxxxxxxxxxxxxxxxxxxxxxx\"",
+    "\"xxxxxxxxxxxxxxxxxxxxxxxxxxxxxxxxxxxxxxxxxxxxxxxxxxxxxxxxxxxxxxxxy\"",
+    "\"xxxxxxxxxxxxxxxxxxxxxxxxxxxxxxxxxxxxxxxxxxxxxxxxxxxxxxxxxxxxxxxxz\"",
+    "\"xxxxxxxxxxxxxxxxxxxxxxxxxxxxxxxxxxxxxxxxxxxxxxxxxxxxxxxxxxxxxxxxya\"",
     // numbers
     "0",
     "0.0",
@@ -221,6 +226,96 @@ pub fn fetch_matrices() -> Result<Matrices, String> {
         m.push(mat);
     }
     Ok(Matrices { n, m })
+}
+
+/// Objects that differ only in member order (which `=` ignores and the order does not), and
+/// objects whose texts sort between them: the four order functions must still describe one
+/// total preorder - dual (`>` is `<` swapped, `>=` is `<=` swapped), complementary (`<` is
+/// not `>=`), total and transitive. `=` plays no part here (C07 does not mention it).
+pub const PERMUTED: &[&str] = &[
+    "{\"a\":1,\"b\":2}", "{\"b\":2,\"a\":1}", "{\"a\":1,\"b\":3}", "{\"a\":1,\"b\":1}", "{\"b\":1,\"a\":1}", "{\"a\":1,\"b\":2,\"c\":0}", "{\"c\":0,\"b\":2,\"a\":1}", "{\"b\":2,\"c\":0,\"a\":1}", "{\"a\":{\"x\":1,\"y\":2}}",
+    "{\"a\":{\"y\":2,\"x\":1}}", "{\"a\":{\"x\":1,\"y\":3}}", "[{\"a\":1,\"b\":2}]", "[{\"b\":2,\"a\":1}]", "[{\"a\":1,\"b\":3}]", "{\"a\":1}", "{\"b\":2}", "{}", "{\"a\":2,\"b\":0}", "{\"b\":0,\"a\":2}", "{\"a\":1,\"c\":0}",
+];
+
+pub fn check_permuted_axioms() -> Result<(usize, Vec<String>), String> {
+    let n = PERMUTED.len();
+    let input = format!("[{}]", PERMUTED.join(","));
+    let mut m: Vec<Vec<Vec<Option<bool>>>> = Vec::new();
+    for op in &OPS[..4] {
+        let sel = format!("--select=(map . (map ^ ({} ^ .)))=m", op);
+        let out = run(&[sel, "--style=consise".to_string()], input.as_bytes());
+        if !out.res.is_ok() {
+            return Err(format!("jawk failed computing the {} matrix: {}", op, out.res.short()));
+        }
+        let rows = split_rows(&out.stdout, b"\n")?;
+        let Some(RVal::Arr(outer)) = rows.first().and_then(|r| r.0.get("m").cloned()) else { return Err(format!("{} matrix missing", op)) };
+        let mat: Vec<Vec<Option<bool>>> = outer.iter().map(|r| if let RVal::Arr(r) = r { r.iter().map(|x| if let RVal::Bool(b) = x { Some(*b) } else { None }).collect() } else { vec![] }).collect();
+        if mat.len() != n || mat.iter().any(|r| r.len() != n || r.iter().any(|x| x.is_none())) {
+            return Err(format!("{} matrix incomplete (a comparison returned nothing)", op));
+        }
+        m.push(mat);
+    }
+    let g = |op: usize, i: usize, j: usize| m[op][i][j].unwrap();
+    let t = |i: usize| PERMUTED[i];
+    let mut errs = Vec::new();
+    for i in 0..n {
+        for j in 0..n {
+            let (lt, le, gt, ge) = (g(0, i, j), g(1, i, j), g(2, i, j), g(3, i, j));
+            if gt != g(0, j, i) {
+                errs.push(format!("(> a b) differs from (< b a) for {} and {}", t(i), t(j)));
+            }
+            if ge != g(1, j, i) {
+                errs.push(format!("(>= a b) differs from (<= b a) for {} and {}", t(i), t(j)));
+            }
+            if lt == ge {
+                errs.push(format!("(< a b) and (>= a b) are both {} for {} and {}", lt, t(i), t(j)));
+            }
+            if gt == le {
+                errs.push(format!("(> a b) and (<= a b) are both {} for {} and {}", gt, t(i), t(j)));
+            }
+            if !le && !g(1, j, i) {
+                errs.push(format!("neither a <= b nor b <= a for {} and {}", t(i), t(j)));
+            }
+        }
+        if !g(1, i, i) {
+            errs.push(format!("<= is not reflexive for {}", t(i)));
+        }
+    }
+    for i in 0..n {
+        for j in 0..n {
+            if !g(1, i, j) {
+                continue;
+            }
+            for k in 0..n {
+                if g(1, j, k) && !g(1, i, k) {
+                    errs.push(format!("<= is not transitive: {} <= {} <= {} but not {} <= {}", t(i), t(j), t(k), t(i), t(k)));
+                }
+            }
+        }
+    }
+    // every sort agrees with <=, whatever the arrival order
+    for (name, rot) in [("as listed", 0usize), ("rotated by 7", 7), ("reversed", usize::MAX)] {
+        let order: Vec<usize> = if rot == usize::MAX { (0..n).rev().collect() } else { (0..n).map(|i| (i + rot) % n).collect() };
+        let arr = format!("[{}]", order.iter().map(|i| PERMUTED[*i]).collect::<Vec<_>>().join(","));
+        let stream: String = order.iter().map(|i| format!("{{\"k\":{},\"id\":{}}}\n", PERMUTED[*i], i)).collect();
+        let o1 = run(&["--select=(map (sort_by (indexed .) .value) .index)=s".to_string(), "--style=consise".to_string()], arr.as_bytes());
+        let o2 = run(&["--sort-by=.k".to_string(), "--select=.id=id".to_string(), "--style=consise".to_string()], stream.as_bytes());
+        let ids1: Vec<usize> = split_rows(&o1.stdout, b"\n")?.first().and_then(|r| r.0.get("s").cloned()).and_then(|v| if let RVal::Arr(a) = v { Some(a.iter().filter_map(|x| if let RVal::Int(i) = x { Some(order[*i as usize]) } else { None }).collect()) } else { None }).unwrap_or_default();
+        let ids2: Vec<usize> = split_rows(&o2.stdout, b"\n")?.iter().filter_map(|r| if let Some(RVal::Int(i)) = r.0.get("id") { Some(*i as usize) } else { None }).collect();
+        for (what, ids) in [("(sort_by ..)", &ids1), ("--sort-by", &ids2)] {
+            if ids.len() != n {
+                errs.push(format!("{} on the objects {} returned {} of {} elements", what, name, ids.len(), n));
+                continue;
+            }
+            for w in ids.windows(2) {
+                if !g(1, w[0], w[1]) {
+                    errs.push(format!("{} on the objects {} puts {} before {} although (<= a b) is false", what, name, t(w[0]), t(w[1])));
+                }
+            }
+        }
+    }
+    errs.truncate(12);
+    Ok((n * n * 4 + 6 * n, errs))
 }
 
 /// Check the order axioms and the agreement with the specified order. Returns the list of
